@@ -484,7 +484,8 @@ class C20(Check):
 
         terms, kinds, notes = c20_translate.translate_all()
         ctx.cov["formula_terms"] = {k: kinds[k] for k in terms}
-        vlib.write_if_changed(os.path.join(vlib.GEN, "MetricsFormulas.lean"), c20_translate.gen_lean(terms, kinds))
+        vlib.write_if_changed(os.path.join(vlib.GEN, "MetricsFormulas.lean"),
+                              c20_translate.gen_lean(terms, kinds, c20_translate.population_constants()))
 
     # ------------------------------------------------------------------ one network
     def run_spec(self, ctx, spec, reqs, fails, with_sim=True, label=""):
